@@ -138,6 +138,12 @@ def native_replay(inst, q, workdir, inputs=None):
     for (f, ext, fn) in used:
         mangled = "__CPROVER_file_local_%s_%s_%s" % (f, ext, fn)
         alias.append("-D%s=%s" % (mangled, ("vfstub_" + fn) if mangled in stubbed else fn))
+    # lang.c references the ten tables: the native build links the real ones even
+    # when the CBMC query left them out
+    if "lang" in h.get("tus", []):
+        for l in ("en", "jp", "ko", "es", "fr", "it", "cs", "pt", "zh_s", "zh_t"):
+            if ("lang_" + l) not in h.get("tus", []):
+                srcs.append(os.path.join(core.REPO, "src", "lang_%s.c" % l))
     main = os.path.join(d, "replay_main.c")
     with open(main, "w") as fo:
         fo.write("#define REPLAY 1\n")
